@@ -284,6 +284,12 @@ def gen_case(rng, small=False, errors=True):
             edges = rng.choice([[0.0, 1.0], [0.0, 1.0, 3.0], [0.4, 0.6, 1.4], [0.0, 3.0], [1.0, 2.0]])
         else:
             edges = rng.choice([[-2.0, 0.0], [-2.0, 0.0, 2.0], [-0.5, 0.5, 1.0], [-3.0, 3.0], [0.5, 2.0]])
+        if sel in SELECTORS and rng.random() < 0.3:
+            # a bin edge exactly on the selector value of a particle (edges are inclusive below, exclusive above)
+            ev = rng.choice([e for e in evs if e] or [[gen_particle(rng)]])
+            P = mk_particle(rng.choice(ev), n)
+            v = float({"pT": P.pT_abs, "rapidity": P.rapidity, "pseudorapidity": P.pseudorapidity}[sel]())
+            edges = rng.choice([[v, v + 1.0], [v - 1.0, v], [v - 1.0, v, v + 1.0]])
         case["bins"] = edges
         case["poi"] = rng.choice([None, None, [211], [211, -211], [2212], [3122]])
     if errors and rng.random() < 0.03:
